@@ -343,6 +343,14 @@ def _check_growth(case):
     lv = m.get_steady_levels()
     if spec["log"] and any(not (1e-6 < float(lv[nm]) < 1e6) for nm in spec["names"]):
         return {"labels": ["degenerate_steady"], "nontrivial": False}
+    ch = m.get_steady_changes()
+    for nm in spec["names"]:
+        g = float(ch[nm]) if ch[nm] is not None else (1.0 if spec["log"] else 0.0)
+        g = abs(math.log(g)) if (spec["log"] and g > 0) else abs(g)
+        if not (g <= 0.2):
+            # a variable shrinking or growing by more than ~20% per period runs out of floating-point range within the
+            # simulated span; the steady path itself is then only known to the solver's absolute tolerance
+            return {"labels": ["extreme_growth_rate"], "nontrivial": False}
     start = ir.qq(2020, 1)
     N = case["N"]
     T = N + TAIL
@@ -362,7 +370,7 @@ def _check_growth(case):
     p0 = sd.Paths(P0, spec, start, -Lmax, T - 1)
     for nm in names + lm.meas_names(spec):
         d = float(np.max(np.abs(tr(p0.arr(nm)) - tr(pS.arr(nm)))))
-        col.check(d <= 1e-8 * scale, "growth:leaves_steady_path", lambda: f"{nm}: zero-shock level simulation leaves the steady path by {d:.3e}\n{lm.source(spec)}")
+        col.check(d <= 1e-6 * scale, "growth:leaves_steady_path", lambda: f"{nm}: zero-shock level simulation leaves the steady path by {d:.3e}\n{lm.source(spec)}")
     # (2) with shocks every equation holds on the perfect-foresight path
     shn = lm.shock_names(spec)
     db = base.copy()
@@ -380,7 +388,7 @@ def _check_growth(case):
         for i, ri in enumerate(lm.residuals(spec, get, t)):
             if not (abs(ri) <= worst):
                 worst, where = abs(ri), (i, t)
-    col.check(worst <= 1e-8 * scale, "growth:equations_residual",
+    col.check(worst <= 1e-6 * scale, "growth:equations_residual",
               lambda: f"equation {where[0]} at t={where[1]}: residual {worst:.3e} on a level simulation around the growth path\n{lm.source(spec)}")
     # (3) levels = steady path combined with the deviation simulation of the same shocks
     dbd = ir.Databox.steady(m, (start - Lmax) >> (start + T + Fmax), deviation=True)
@@ -395,7 +403,7 @@ def _check_growth(case):
         a, s_, d_ = pP.arr(nm)[Lmax:], pS.arr(nm)[Lmax:], pD.arr(nm)[Lmax:]
         diff = np.abs(np.log(a) - (np.log(s_) + np.log(d_))) if spec["log"] else np.abs(a - (s_ + d_))
         w = float(np.max(diff))
-        col.check(w <= 1e-8 * scale, "growth:levels_vs_deviation", lambda: f"{nm}: level path differs from steady path combined with deviations by {w:.3e}\n{lm.source(spec)}")
+        col.check(w <= 1e-6 * scale, "growth:levels_vs_deviation", lambda: f"{nm}: level path differs from steady path combined with deviations by {w:.3e}\n{lm.source(spec)}")
     col.done()
     return {"labels": ["judged"], "nontrivial": True}
 
